@@ -7,7 +7,7 @@ import CTV.Gen.TbsFacts
 Every line is answered for **every** input: `err` = the Go function returns an error, `ok …` = its result. `canon` lines give the
 domain of the canonical model (`parseTbs`); the results come from the model of everything the fork accepts (`laxTbs`,
 CTV/Model/TbsLax.lean). On every line the driver also asserts the two facts that tie the two models together and are not proved
-(Props/C03.lean `lax_agrees_partial`): on canonical input both models give the same answer, and the normal form the lax model
+(Props/C03.lean `routes_commute_accepted_partial`): the normal form the lax model
 produces is well-formed; a violated assertion is answered `MODEL-INCONSISTENT …`, which can never equal the implementation's answer. -/
 namespace CTV.Driver.C03
 open CTV CTV.Proto CTV.Tbs
@@ -49,45 +49,53 @@ def showLeaf : Option (Bytes × Bytes) → String
   | none => "err"
   | some (b, k) => s!"ok {hexOrDash b} {toHex (Sha256.hash k)}"
 
-/-- the assertions that tie the canonical model to the lax one, evaluated on this input -/
-def consistent (bs : Bytes) : Option String :=
-  match laxTbs bs with
-  | none => if (parseTbs bs).isSome then some "canonical-but-not-accepted" else none
-  | some t =>
-    if !t.wf then some "normal-form-not-wf"
-    else if (parseTbs bs).isSome != (marshalTbs t == bs) then some "canonical-iff-reproduced"
-    else match parseTbs bs with
-      | some t' => if t' == t then none else some "contents-differ"
-      | none => none
-
-def onTbs (h : String) (f : Bytes → String) : String :=
+/-- The one fact about the lax model that is not proved (Props/C03.lean, `routes_commute_accepted_partial`): the normal form it
+produces is well-formed. Evaluated for every traced input. (That both models agree on canonical input is a theorem,
+`C03.lax_agrees_on_canonical`; it is still evaluated on the `canon` lines, where both parsers run anyway.) -/
+def onTbs (h : String) (f : Bytes → Option Tbs → String) : String :=
   match fromHex h with
   | none => "bad-op"
   | some bs =>
-    match consistent bs with
-    | some why => "MODEL-INCONSISTENT " ++ why
-    | none => f bs
+    let lt := laxTbs bs
+    match lt with
+    | some t => if t.wf then f bs lt else "MODEL-INCONSISTENT normal-form-not-wf"
+    | none => f bs lt
 
-/-- on canonical input the canonical model must give the same answer -/
-def both (bs : Bytes) (lax strict : Option Bytes) : String :=
-  if (parseTbs bs).isSome && lax != strict then "MODEL-INCONSISTENT canonical-result" else showRes lax
+def canonLine (bs : Bytes) (lt : Option Tbs) : String :=
+  let ps := parseTbs bs
+  match ps, lt with
+  | some t, some t' => if t == t' && marshalTbs t' == bs then "1" else "MODEL-INCONSISTENT canonical"
+  | some _, none => "MODEL-INCONSISTENT canonical-but-not-accepted"
+  | none, some t' => if marshalTbs t' == bs then "MODEL-INCONSISTENT reproduced-but-not-canonical" else "0"
+  | none, none => "0"
+
+def leafPre (lt : Option Tbs) (keys : List Bytes) (pre : Option PreIssuer) : Option (Bytes × Bytes) :=
+  match keys with
+  | [] => none
+  | k1 :: rest' =>
+    match pre with
+    | none => (buildPrecertTBSLaxOf lt none).map (·, k1)
+    | some p =>
+      match rest' with
+      | [] => none
+      | k2 :: _ => (buildPrecertTBSLaxOf lt (some p)).map (·, k2)
 
 def handle (line : String) : String :=
   match tokens line with
   | "T" :: rest => go rest
   | rest => go rest
 where go : List String → String
-  | ["canon", h] => onTbs h fun bs => boolStr (parseTbs bs).isSome
-  | ["remarshal", h] => onTbs h fun bs => showRes (remarshalLax bs)
+  | ["canon", h] => onTbs h canonLine
+  | ["remarshal", h] => onTbs h fun _ lt => showRes (lt.map marshalTbs)
   | ["rm", which, h] =>
     let oid := if which = "sct" then some sct else if which = "poison" then some poison else fromHex which
     match oid with
     | none => "bad-op"
-    | some oid => onTbs h fun bs => both bs (removeExtLax oid bs) (removeExt oid bs)
+    | some oid => onTbs h fun _ lt => showRes (removeExtLaxOf oid lt)
   | "build" :: h :: c1 =>
     match parseC1 c1 with
     | none => "bad-op"
-    | some c => onTbs h fun bs => both bs (buildPrecertTBSLax bs (c.map Chain1.pre)) (buildPrecertTBS bs (c.map Chain1.pre))
+    | some c => onTbs h fun _ lt => showRes (buildPrecertTBSLaxOf lt (c.map Chain1.pre))
   | "leafpre" :: h :: n :: rest =>
     match parseNat? n with
     | none => "bad-op"
@@ -97,17 +105,16 @@ where go : List String → String
       | some (keys, c1) =>
         match parseC1 c1 with
         | none => "bad-op"
-        | some c => onTbs h fun bs =>
-          let r := leafFromPrecertChainLax bs keys (preIssuerOf c)
-          if (parseTbs bs).isSome && r != leafFromPrecertChain bs keys (preIssuerOf c) then "MODEL-INCONSISTENT canonical-leaf" else showLeaf r
+        | some c => onTbs h fun _ lt => showLeaf (leafPre lt keys (preIssuerOf c))
   | "leafemb" :: h :: n :: rest =>
     match parseNat? n with
     | none => "bad-op"
     | some n =>
       match parseList (n - 1) rest with
-      | some (keys, []) => onTbs h fun bs =>
-        let r := leafForEmbeddedSCTLax bs keys
-        if (parseTbs bs).isSome && r != leafForEmbeddedSCT bs keys then "MODEL-INCONSISTENT canonical-leaf" else showLeaf r
+      | some (keys, []) => onTbs h fun _ lt =>
+        match keys with
+        | [] => "err"
+        | k1 :: _ => showLeaf ((removeExtLaxOf sct lt).map (·, k1))
       | _ => "bad-op"
   | "sctenc" :: n :: items =>
     match parseNat? n with
